@@ -38,8 +38,12 @@ pub struct RunStats {
     pub ops: u64,
     pub judged: u64,
     pub seams: u64,
+    #[serde(default)]
+    pub alloc_seams: u64,
     pub switches: u64,
     pub switches_inside_op: u64,
+    #[serde(default)]
+    pub switches_at_alloc: u64,
     pub sink_error_fired: u64,
     pub sink_panic_fired: u64,
     pub nested_fired: u64,
@@ -57,6 +61,67 @@ pub struct RunResult {
     pub log: Vec<String>,
 }
 
+// ------------------------------------------------------------- allocator seam
+//
+// The global allocator is the second seam the simulator owns: while a simulated
+// caller thread is inside a library `Display` call, every allocation the
+// library makes (symbol strings, `format!` buffers) is a scheduling point, so a
+// thread can be suspended between two internal steps of a display, not only at
+// its sink writes. Allocation counts are a deterministic function of code and
+// plan, so runs stay repeatable. Allocation *failure* is not injected: it
+// aborts the process (DESIGN.md §3.3).
+
+use std::alloc::{GlobalAlloc, Layout, System};
+use std::cell::Cell;
+
+thread_local! {
+    /// (scheduler, thread id) while the thread is inside a library display call
+    /// of a run with allocator seams enabled; null otherwise
+    static ALLOC_SEAM: Cell<(*const Sched, usize)> = const { Cell::new((std::ptr::null(), 0)) };
+    /// set while simulator code runs on this thread (it allocates itself)
+    static IN_SIM: Cell<bool> = const { Cell::new(false) };
+}
+
+pub struct SeamAlloc;
+
+#[allow(unsafe_code)]
+unsafe impl GlobalAlloc for SeamAlloc {
+    unsafe fn alloc(&self, layout: Layout) -> *mut u8 {
+        alloc_seam();
+        unsafe { System.alloc(layout) }
+    }
+    unsafe fn dealloc(&self, ptr: *mut u8, layout: Layout) {
+        unsafe { System.dealloc(ptr, layout) }
+    }
+    unsafe fn realloc(&self, ptr: *mut u8, layout: Layout, new_size: usize) -> *mut u8 {
+        alloc_seam();
+        unsafe { System.realloc(ptr, layout, new_size) }
+    }
+}
+
+#[inline]
+fn alloc_seam() {
+    // `try_with`: the allocator also runs while thread-locals are torn down
+    let _ = ALLOC_SEAM.try_with(|c| {
+        let (sched, me) = c.get();
+        if !sched.is_null() && !IN_SIM.with(|s| s.replace(true)) {
+            // SAFETY: the pointer is set by `run_op` from an `Arc<Sched>` that
+            // outlives the operation and is cleared before `run_op` returns
+            #[allow(unsafe_code)]
+            unsafe { &*sched }.seam_kind(me, true, true);
+            IN_SIM.with(|s| s.set(false));
+        }
+    });
+}
+
+/// Runs simulator code with allocator seams suppressed.
+fn in_sim<R>(f: impl FnOnce() -> R) -> R {
+    let was = IN_SIM.with(|s| s.replace(true));
+    let r = f();
+    IN_SIM.with(|s| s.set(was));
+    r
+}
+
 // ------------------------------------------------------------------ scheduler
 
 struct SchedState {
@@ -66,8 +131,10 @@ struct SchedState {
     pos: usize,
     trace: Vec<u8>,
     seams: u64,
+    alloc_seams: u64,
     switches: u64,
     switches_inside_op: u64,
+    switches_at_alloc: u64,
     progress: u64,
     stalls: u64,
 }
@@ -94,8 +161,10 @@ impl Sched {
                 pos: 0,
                 trace: Vec::new(),
                 seams: 0,
+                alloc_seams: 0,
                 switches: 0,
                 switches_inside_op: 0,
+                switches_at_alloc: 0,
                 progress: 0,
                 stalls: 0,
             }),
@@ -151,6 +220,10 @@ impl Sched {
 
     /// A scheduling point reached by thread `me`.
     fn seam(&self, me: usize, inside_op: bool) {
+        in_sim(|| self.seam_kind(me, inside_op, false))
+    }
+
+    fn seam_kind(&self, me: usize, inside_op: bool, at_alloc: bool) {
         if self.free {
             std::thread::yield_now();
             return;
@@ -162,12 +235,18 @@ impl Sched {
             return;
         }
         st.seams += 1;
+        if at_alloc {
+            st.alloc_seams += 1;
+        }
         st.progress += 1;
         let next = self.choose(&mut st, Some(me)).unwrap();
         if next != me {
             st.switches += 1;
             if inside_op {
                 st.switches_inside_op += 1;
+            }
+            if at_alloc {
+                st.switches_at_alloc += 1;
             }
             st.parked_in_op[me] = inside_op;
             st.current = next;
@@ -214,9 +293,23 @@ struct SimSink<'a> {
 
 impl fmt::Write for SimSink<'_> {
     fn write_str(&mut self, s: &str) -> fmt::Result {
+        // the sink is simulator code: its own allocations are not seams, and
+        // a re-entrant display issued from here runs without allocator seams
+        let was = IN_SIM.with(|c| c.replace(true));
+        let r = catch_unwind(AssertUnwindSafe(|| self.write_str_inner(s)));
+        IN_SIM.with(|c| c.set(was));
+        match r {
+            Ok(r) => r,
+            Err(p) => std::panic::resume_unwind(p),
+        }
+    }
+}
+
+impl SimSink<'_> {
+    fn write_str_inner(&mut self, s: &str) -> fmt::Result {
         let k = self.writes;
         self.writes += 1;
-        self.sched.seam(self.me, true);
+        self.sched.seam_kind(self.me, true, false);
         if self.fault_fired == Some(FaultKind::Error) {
             return Err(fmt::Error); // a broken sink stays broken
         }
@@ -327,10 +420,14 @@ struct OpRecord {
     nested: bool,
 }
 
-fn run_op(sched: &Sched, me: usize, idx: usize, op: &Op) -> OpRecord {
+fn run_op(sched: &Sched, me: usize, idx: usize, op: &Op, alloc_seams: bool) -> OpRecord {
     let sh = shown(&op.what, &op.spec);
     let mut sink = SimSink { sched, me, op, writes: 0, text: String::new(), fault_fired: None, nested: None };
+    if alloc_seams && !sched.free {
+        ALLOC_SEAM.with(|c| c.set((sched as *const Sched, me)));
+    }
     let out = display_into(&mut sink, &sh, &op.spec);
+    ALLOC_SEAM.with(|c| c.set((std::ptr::null(), 0)));
     let mut violations = Vec::new();
     let mut judged = 0;
     let mk = |nested: bool, sh: &Shown, spec: &Spec, v: (String, String, String)| Violation {
@@ -384,6 +481,7 @@ pub fn execute_mode(plan: &Plan, free: bool) -> RunResult {
         st.current = first;
     }
     let mut handles = Vec::new();
+    let alloc_seams = plan.alloc_seams;
     for (me, ops) in plan.threads.iter().cloned().enumerate() {
         let sched = Arc::clone(&sched);
         handles.push(std::thread::spawn(move || {
@@ -391,7 +489,7 @@ pub fn execute_mode(plan: &Plan, free: bool) -> RunResult {
             let mut recs = Vec::new();
             for (i, op) in ops.iter().enumerate() {
                 sched.seam(me, false);
-                recs.push(run_op(&sched, me, i, op));
+                recs.push(run_op(&sched, me, i, op, alloc_seams));
             }
             sched.finish(me);
             recs
@@ -431,6 +529,8 @@ pub fn execute_mode(plan: &Plan, free: bool) -> RunResult {
     stats.seams = st.seams;
     stats.switches = st.switches;
     stats.switches_inside_op = st.switches_inside_op;
+    stats.alloc_seams = st.alloc_seams;
+    stats.switches_at_alloc = st.switches_at_alloc;
     stats.stalls = st.stalls;
     stats.trace_hash = crate::prng::fnv64(&st.trace);
     stats.nontrivial = stats.switches_inside_op > 0
